@@ -107,8 +107,16 @@ func run(c *props.Ctx) {
 		return
 	}
 	s.EnableExt()
-	k := &checker{c: c, s: s, e: s.Engine(), sp: sp}
+	k := &checker{c: c, s: s, e: s.Engine(), sp: sp, anchorFns: map[*ssa.Function]bool{}}
 	k.e.MaxPaths = 512
+	for _, a := range solidAnchors {
+		if f := P.Func(primRel, a.name); f != nil {
+			k.anchorFns[f] = true
+		}
+	}
+	if f := P.Func(primRel, "Cube.Welded"); f != nil {
+		k.anchorFns[f] = true
+	}
 	if d := os.Getenv("C18_DUMP"); d != "" {
 		k.probe(d)
 	}
@@ -227,6 +235,16 @@ type checker struct {
 	s  *c17.Session
 	e  *c17.Engine
 	sp *ssa.Package
+	// anchorFns: the generators that are decided on their own (never inlined into another one)
+	anchorFns map[*ssa.Function]bool
+}
+
+// own: an event of the constructor itself or of one of the package's helpers inlined into it.
+func (k *checker) own(fn, in *ssa.Function) bool {
+	if in == fn {
+		return true
+	}
+	return in != nil && (in.Pkg == k.sp || (in.Parent() != nil && in.Parent().Pkg == k.sp)) && !k.anchorFns[in]
 }
 
 func isMesh(t types.Type) bool {
@@ -352,12 +370,7 @@ func (k *checker) analyse(r *rec, fn *ssa.Function) {
 		return
 	}
 	old := k.e.Opaque
-	k.e.Opaque = func(f *ssa.Function) bool {
-		if old != nil && old(f) {
-			return true
-		}
-		return f != fn && f.Pkg == k.sp // helpers of the package (UV layout) are not needed
-	}
+	k.e.Opaque = k.solidOpaque(fn, old)
 	res := k.e.Run(fn, []c17.Val{arg})
 	k.e.Opaque = old
 	if prob := res.Problem(); prob != "" {
@@ -690,6 +703,11 @@ func (k *checker) solidOpaque(fn *ssa.Function, old func(*ssa.Function) bool) fu
 			pp = f.Pkg.Pkg.Path()
 		} else if o := f.Origin(); o != nil && o.Pkg != nil {
 			pp = o.Pkg.Pkg.Path()
+		}
+		if f.Pkg == k.sp || (f.Parent() != nil && f.Parent().Pkg == k.sp) {
+			// the package's own helpers are followed (a constructor split into uvPositions / …Triangles helpers);
+			// the other generators stay uninterpreted: they are solids of their own, decided on their own
+			return k.anchorFns[f]
 		}
 		if pp == load.Module || strings.HasPrefix(pp, load.Module+"/") {
 			return len(ssau.Loops(f)) > 0
